@@ -89,7 +89,7 @@ TEXT = {
     "C13": {
         "technique": "property-based testing (rapid) over loopback against the real SCION listener and client with USE_MOCK_KEYS: generated SCION packets (payload kind, address families, ISD-AS, traffic class, flow id, path shape and position, extensions, authenticator variants; client DSCP; listeners with DSCP 0 and 46) with sentinel-delimited reply collection; oracle = independently recomputed SPAO MAC over the packet as received (spao library), independently computed path reversal, address/port exchange, payload echo, forwarding predicate; end-to-end exchanges through a byte-flipping relay",
         "level": "Generated search: 2500 listener probes + 300 end-to-end exchanges quick, 10x per shard thorough. Exploration.",
-        "note": "Two key set-ups: USE_MOCK_KEYS (all-zero host-host key; wrong key = mutated MAC/covered byte) and a harness-provided fake SCION daemon (gRPC) whose DRKeys depend on protocol, both ISD-ASes and both hosts (wrong key = the genuine key of other parameters; exercises the listener's key cache). scionproto slayers/spao/generic deriver are trusted. EPIC paths and the panic-inducing inputs (P9) are outside this generator (C08). Found and repaired: replies to one-hop-path requests carried the wrong path type (5d5f48f); MeasureClockOffsetSCION reported offset 0 without error when every path failed (3b20f61).",
+        "note": "Two key set-ups: USE_MOCK_KEYS (all-zero host-host key; wrong key = mutated MAC/covered byte) and a harness-provided fake SCION daemon (gRPC) whose DRKeys depend on protocol, both ISD-ASes and both hosts (wrong key = the genuine key of other parameters; exercises the listener's key cache). scionproto slayers/spao/generic deriver are trusted. EPIC paths and the panic-inducing inputs (P9) are outside this generator (C08). Found and repaired: replies to one-hop-path requests carried the wrong path type (5d5f48f); MeasureClockOffsetSCION reported offset 0 without error when every path failed (3b20f61); packet authenticator verified over the tail of the packet instead of the evaluated UDP datagram (65fa2b5).",
     },
     "C15": {
         "technique": "property-based testing with scripted randomness (crypto/rand.Reader replaced by rapid-drawn words): pointwise characterisation of RandIntn, validity of Sample via replay of its pick calls, exhaustive enumeration of all draw tuples for 0<=k<=n<=7 (exact uniformity over subsets); rapid state machine over multipath measurement rounds of the real SCION clients against per-path harness time servers that answer, stay silent or refuse at once",
